@@ -60,7 +60,12 @@ def gen_ops(rng, n, malformed):
                 idxs = sorted(rng.sample(range(nr), rng.randint(0 if i not in marked else 1, max(1, nr - 1) if rng.random() < 0.7 else nr)))
                 if rng.random() < 0.3:
                     rng.shuffle(idxs)
-                ops.append(['d', i, idxs, rng.choice(['set', 'list'])])
+                form = rng.choice(['set', 'list'])
+                if i not in marked and idxs and rng.random() < 0.15:
+                    # a message whose delivered marks an EARLIER RELEASE wrote (redis: the pickled set of the first round, put into the
+                    # hash directly; the backend still reads that format — seeded change C01-x dropped it; elsewhere an ordinary round)
+                    form = 'legacy'
+                ops.append(['d', i, idxs, form])
                 left[i] = nr - len(idxs)
                 marked.add(i)
         elif c < 0.8:
@@ -172,7 +177,13 @@ def do_op(be, op, ids, rev):
         if kind == 'i':
             return 'att:%d' % st.increment_attempts(rid)
         if kind == 'd':
-            arg = set(op[2]) if op[3] == 'set' else list(op[2])
+            if op[3] == 'legacy' and be.name == 'redis' and rid is not None:
+                # what the releases before the per-round format stored after a first partial delivery: the pickled SET the queue
+                # handed over (the disk and cloud backends of those releases could not store one: list + set / JSON)
+                import pickle
+                st.redis.hset(st._get_key(rid), 'delivered_indexes', pickle.dumps(set(op[2]), pickle.HIGHEST_PROTOCOL))
+                return 'unit'
+            arg = list(op[2]) if op[3] == 'list' else set(op[2])
             st.set_recipients_delivered(rid, arg)
             return 'unit'
         if kind == 'g':
